@@ -57,8 +57,12 @@ def assigned_names(nodes):
             elif isinstance(t, (ast.Tuple, ast.List)):
                 for e in t.elts:
                     self._t(e)
-            elif isinstance(t, (ast.Subscript, ast.Attribute)):
+            elif isinstance(t, ast.Subscript):
+                # a store into a by-value container held in a local re-binds that local;
+                # a store through an object attribute (obj.f[k] = ..) changes the heap, not the local `obj`
                 self._t(t.value)
+            elif isinstance(t, ast.Attribute):
+                pass
             elif isinstance(t, ast.Starred):
                 self._t(t.value)
     v = V()
@@ -68,13 +72,16 @@ def assigned_names(nodes):
 
 
 def written_fields(nodes):
-    """(attribute names) stored through obj.attr = / obj.attr[...] = / obj.attr.method() in statements."""
-    out = set()
+    """attribute names stored through obj.attr = / obj.attr[...] = / obj.attr.method() in statements.
+    Returns a set of names; names written ONLY through the receiver `self` are also in .only_self"""
+    out = _FieldSet()
 
     class V(ast.NodeVisitor):
         def _t(self, t):
             if isinstance(t, ast.Attribute):
                 out.add(t.attr)
+                if not (isinstance(t.value, ast.Name) and t.value.id == 'self'):
+                    out.not_self.add(t.attr)
                 self._t(t.value)
             elif isinstance(t, ast.Subscript):
                 self._t(t.value)
@@ -105,6 +112,12 @@ def written_fields(nodes):
     for n in nodes:
         v.visit(n)
     return out
+
+
+class _FieldSet(set):
+    def __init__(self):
+        super().__init__()
+        self.not_self = set()
 
 
 class Runner:
@@ -144,7 +157,102 @@ class Runner:
         m = getattr(self, 'st_' + type(s).__name__, None)
         if m is None:
             raise OutOfSubset('statement %s at line %s' % (type(s).__name__, s.lineno))
-        return m(s, st)
+        ghost = self.ghost_for(s) if not getattr(s, '_is_ghost', False) else None
+        if ghost and ghost.get('before'):
+            self.run_ghost(ghost['before'], st, s.lineno)
+        outs = m(s, st)
+        if ghost and ghost.get('after'):
+            for o in outs:
+                if o.kind == 'next':
+                    self.run_ghost(ghost['after'], o.st, s.lineno)
+        return outs
+
+    def ghost_assigned(self, stmts):
+        con = self.ex.contract
+        out = set()
+        if con is None or not con.ghost:
+            return out
+        for st_ in stmts:
+            for n in ast.walk(st_):
+                if isinstance(n, ast.stmt):
+                    g = self.ghost_for(n, mark=False)
+                    if g:
+                        for src in list(g.get('before', [])) + list(g.get('after', [])):
+                            try:
+                                node = ast.parse(src).body[0]
+                            except SyntaxError:
+                                continue
+                            if isinstance(node, ast.Assign) and isinstance(node.targets[0], ast.Name):
+                                out.add(node.targets[0].id)
+        return out
+
+    def ghost_for(self, s, mark=True):
+        con = self.ex.contract
+        if con is None or not con.ghost:
+            return None
+        if isinstance(s, (ast.For, ast.While, ast.If, ast.Try)):
+            txt = ast.unparse(s).split('\n')[0]
+        else:
+            txt = ast.unparse(s)
+        for anchor, g in con.ghost.items():
+            if txt.startswith(anchor):
+                if mark:
+                    self.ctx.reached.add('ghost:' + anchor)
+                return g
+        return None
+
+    def run_ghost(self, stmts, st, lineno):
+        """Ghost code from the sidecar: `assert e`, `assume_lemma ...`, and assignments to ghost fields /
+        ghost locals only (checked)."""
+        for src in stmts:
+            try:
+                node = ast.parse(src).body[0]
+            except SyntaxError as e:
+                raise ContractDrift('ghost statement %r: %s' % (src, e))
+            node._is_ghost = True
+            for n in ast.walk(node):
+                n.lineno = lineno
+                n.col_offset = 0
+            if isinstance(node, ast.Assert):
+                saved = self.ctx.mode
+                self.ctx.mode = 'spec'
+                try:
+                    g = truthy(self.ex.ev(node.test, st))
+                    self.ex.oblige(st, g, 'assert', 'ghost@L%d' % lineno, text=src)
+                finally:
+                    self.ctx.mode = saved
+                st.pc.append(g)
+            elif isinstance(node, ast.Expr) and isinstance(node.value, ast.Call) and \
+                    isinstance(node.value.func, ast.Name) and node.value.func.id == 'assume_env':
+                # environment assumption (behaviour of user code / known-finding region): listed in the evidence
+                saved = self.ctx.mode
+                self.ctx.mode = 'spec-assume'
+                try:
+                    g = truthy(self.ex.ev(node.value.args[0], st))
+                finally:
+                    self.ctx.mode = saved
+                st.pc.append(g)
+                why = node.value.args[1].value if len(node.value.args) > 1 else ''
+                self.ctx.assumptions_used.add('ENVIRONMENT ASSUMPTION in %s: %s  [%s]'
+                                              % (self.ctx.fname, ast.unparse(node.value.args[0]), why))
+            elif isinstance(node, ast.Assign):
+                tgt = node.targets[0]
+                if isinstance(tgt, ast.Attribute):
+                    if not tgt.attr.startswith('g_'):
+                        raise ContractDrift('ghost code may only assign ghost fields (g_*): %r' % src)
+                elif isinstance(tgt, ast.Name):
+                    if not tgt.id.startswith('g_'):
+                        raise ContractDrift('ghost code may only assign ghost locals (g_*): %r' % src)
+                else:
+                    raise ContractDrift('ghost assignment target: %r' % src)
+                saved = self.ctx.mode
+                self.ctx.mode = 'spec'
+                try:
+                    self.st_Assign(node, st)
+                finally:
+                    self.ctx.mode = saved
+            else:
+                raise ContractDrift('unsupported ghost statement %r' % src)
 
     def abstract_stmt(self, s, st):
         # havoc every local the statement assigns; it must not call anything under contract
@@ -375,8 +483,21 @@ class Runner:
 
     # -- loops --------------------------------------------------------------
     def loop_spec(self, s, kind):
-        idx = self.loop_index
-        self.loop_index += 1
+        # ordinal of the loop in SOURCE order (a loop may be reached by several paths)
+        order = getattr(self, '_loop_order', None)
+        if order is None:
+            order = self._loop_order = {}
+        key = (s.lineno, s.col_offset)
+        if key not in order:
+            body = getattr(self.ex, 'function_body', None)
+            if body is not None and not order:
+                loops = sorted({(n.lineno, n.col_offset) for st_ in body for n in ast.walk(st_)
+                                if isinstance(n, (ast.For, ast.While))})
+                for i, k in enumerate(loops):
+                    order[k] = i
+            if key not in order:
+                order[key] = len(order)
+        idx = order[key]
         con = self.ex.contract
         loops = con.loops if con is not None else {}
         spec = None
@@ -402,10 +523,30 @@ class Runner:
         mode, payload = self.classify_iter(it, st)
         invs = parse_exprs(spec.get('invariant', []))
         hints = parse_exprs(spec.get('hints', []))
-        body_assigned = assigned_names(s.body) | assigned_names([ast.Assign(targets=[s.target], value=ast.Constant(value=None))])
+        body_assigned = assigned_names(s.body) | assigned_names([ast.Assign(targets=[s.target], value=ast.Constant(value=None))]) \
+            | self.ghost_assigned(s.body)
         body_fields = written_fields(s.body)
+        # a dict-loop value variable that is mutated in place writes through to the iterated container
+        nd = it
+        if isinstance(nd, ast.Call) and isinstance(nd.func, ast.Name) and nd.func.id == 'list' and nd.args:
+            nd = nd.args[0]
+        if isinstance(nd, ast.Call) and isinstance(nd.func, ast.Attribute) and nd.func.attr in ('items', 'values'):
+            tv = s.target.elts[1] if (isinstance(s.target, ast.Tuple) and len(s.target.elts) == 2) else s.target
+            if isinstance(tv, ast.Name) and self.mutated_later(tv.id):
+                root = nd.func.value
+                through_heap = False
+                while isinstance(root, (ast.Subscript, ast.Attribute)):
+                    if isinstance(root, ast.Attribute):
+                        body_fields.add(root.attr)
+                        through_heap = True
+                    root = root.value
+                if isinstance(root, ast.Name) and not through_heap:
+                    body_assigned.add(root.id)
         label = 'loop%d' % idx
+        self._saved_ghost = getattr(self, '_saved_ghost', [])
+        outer_ghost = {g: st.ghost.get(g) for g in ('_i', '_done', '_k', '_entry', '_pre')}
         pre_loop = st.copy()
+        st.ghost['_entry'] = pre_loop
         # ghost vars at entry
         if mode == 'seq':
             seq = payload
@@ -462,9 +603,9 @@ class Runner:
                     self.assume_hints(hints, nst)
                     self.assert_invs(invs, nst, 'inv-step', label)
                 elif o.kind == 'break':
-                    outs.append(Outcome(self.leave_loop(o.st), 'next'))
+                    outs.append(Outcome(self.leave_loop(o.st, outer_ghost), 'next'))
                 else:
-                    outs.append(Outcome(self.leave_loop(o.st), o.kind, o.val))
+                    outs.append(Outcome(self.leave_loop(o.st, outer_ghost), o.kind, o.val))
         # 3b. normal exit
         est = hst
         if mode == 'seq':
@@ -475,12 +616,14 @@ class Runner:
             kk = z3.Const('k!ex%d' % next(_fresh_counter), kty.sort())
             has_kk = (z3.And(T.is_TNode(mp.t), T.thas(mp.t)[kk])) if mp.ty == T.TREE else map_has(mp, kk)
             est.pc.append(z3.ForAll([kk], d[kk] == has_kk))
-        outs.append(Outcome(self.leave_loop(est), 'next'))
+        outs.append(Outcome(self.leave_loop(est, outer_ghost), 'next'))
         return outs
 
-    def leave_loop(self, st):
+    def leave_loop(self, st, outer=None):
         for g in ('_i', '_done', '_k', '_entry', '_pre'):
             st.ghost.pop(g, None)
+            if outer and outer.get(g) is not None:
+                st.ghost[g] = outer[g]
         return st
 
     def classify_iter(self, it, st):
@@ -585,31 +728,44 @@ class Runner:
                 st.pc.extend(ty.wf(v.t))
                 st.env[n] = v
         # heap: fields stored directly in the body
-        touched = set()
+        touched = {}          # key -> True if every writer goes through the receiver `self`
+
+        def touch(key, via_self):
+            touched[key] = touched.get(key, True) and via_self
+        not_self = getattr(fields, 'not_self', set())
         for (cls, fld) in list(st.heap.keys()):
             if cls == '$alloc':
                 continue
             if fld in fields:
-                touched.add((cls, fld))
+                touch((cls, fld), fld not in not_self)
+        for fld in fields:
+            # fields not read yet: resolve through the class of `self` if possible
+            if self.ex.self_class:
+                try:
+                    touch((self.ex.field_decl_class(self.ex.self_class, fld), fld), fld not in not_self)
+                except OutOfSubset:
+                    pass
         # heap: frames of callees in the body
         for n in ast.walk(ast.Module(body=body, type_ignores=[])):
             if isinstance(n, ast.Call) and not is_ignored_call(n):
                 nm = n.func.attr if isinstance(n.func, ast.Attribute) else getattr(n.func, 'id', None)
+                recv_self = isinstance(n.func, ast.Attribute) and isinstance(n.func.value, ast.Name) and n.func.value.id == 'self'
                 for k, c in S.CONTRACTS.items():
                     if c.qual.split('.')[-1] == nm or c.qual == nm or c.qual == (nm or '') + '.__init__':
                         for m in c.modifies:
                             if m.startswith('self.'):
                                 cls = c.qual.split('.')[0]
-                                touched.add((self.ex.field_decl_class(cls, m[5:]), m[5:]))
+                                is_ctor = c.qual.endswith('.__init__')
+                                touch((self.ex.field_decl_class(cls, m[5:]), m[5:]), recv_self and not is_ctor)
                             else:
                                 cls, fld = m.split('.', 1)
-                                touched.add((self.ex.field_decl_class(cls, fld), fld))
+                                touch((self.ex.field_decl_class(cls, fld), fld), False)
                         if c.qual.endswith('.__init__') or c.alloc:
-                            touched.add(('$alloc', 'next'))
+                            touch(('$alloc', 'next'), False)
         for extra in spec.get('modifies', []):
             cls, fld = extra.split('.', 1)
-            touched.add((self.ex.field_decl_class(cls, fld), fld))
-        for key in touched:
+            touch((self.ex.field_decl_class(cls, fld), fld), False)
+        for key, via_self in touched.items():
             if key == ('$alloc', 'next'):
                 if key in st.heap:
                     nxt = z3.Int('alloc!%d' % next(_fresh_counter))
@@ -618,12 +774,17 @@ class Runner:
                 continue
             cls, fld = key
             k2, fty = self.ex.heap_arr(st, cls, fld)
+            oldarr = st.heap[k2]
             newarr = z3.Const('heap!%s.%s!%d' % (cls, fld, next(_fresh_counter)), z3.ArraySort(T.RefSort, fty.sort()))
             st.heap[k2] = newarr
             r = z3.Int('r!wf')
             wf = fty.wf(newarr[r])
             if wf:
                 st.pc.append(z3.ForAll([r], z3.And(*wf), patterns=[newarr[r]]))
+            if via_self and 'self' in st.env:
+                # only the receiver object was written: every other object keeps its field
+                st.pc.append(z3.ForAll([r], z3.Implies(r != st.env['self'].t, newarr[r] == oldarr[r]),
+                                       patterns=[newarr[r]]))
 
     def assert_invs(self, invs, st, kind, label):
         saved = self.ctx.mode
@@ -661,8 +822,9 @@ class Runner:
         hints = parse_exprs(spec.get('hints', []))
         dec = spec.get('decreases')
         label = 'loop%d' % idx
-        names = assigned_names(s.body)
+        names = assigned_names(s.body) | self.ghost_assigned(s.body)
         fields = written_fields(s.body)
+        outer_ghost = {g: st.ghost.get(g) for g in ('_i', '_done', '_k', '_entry', '_pre')}
         pre_loop = st.copy()
         st.ghost['_entry'] = pre_loop
         self.assert_invs(invs, st, 'inv-entry', label)
@@ -694,13 +856,13 @@ class Runner:
                         self.ctx.mode = 'code'
                         self.ex.oblige(o.st, z3.And(d0.t >= 0, d1.t < d0.t), 'decreases', label)
                 elif o.kind == 'break':
-                    outs.append(Outcome(self.leave_loop(o.st), 'next'))
+                    outs.append(Outcome(self.leave_loop(o.st, outer_ghost), 'next'))
                 else:
-                    outs.append(Outcome(self.leave_loop(o.st), o.kind, o.val))
+                    outs.append(Outcome(self.leave_loop(o.st, outer_ghost), o.kind, o.val))
         est = cst
         est.pc.append(z3.Not(c))
         if self.ex.feasible(est):
-            outs.append(Outcome(self.leave_loop(est), 'next'))
+            outs.append(Outcome(self.leave_loop(est, outer_ghost), 'next'))
         return outs
 
 
